@@ -55,7 +55,7 @@ func suiteC17(r *Run) {
 	r.Rule = "nesting depths 1..5, every nil/pass/short-circuit/alter-options combination per layer (unary and stream interceptor independently), base = real grpc.ClientConn over bufconn, in-process channel, HTTP channel, recording channel; one unary call and one stream creation per configuration; compared: ordered event logs incl. the class of the cc argument (root / nil / other) and the options count reaching the base. Non-trivial: depth >= 2 or a layer with a nil interceptor; distinct by (base, layers)."
 	r.Assumptions = append(r.Assumptions, "grpc.ClientConn over bufconn as the standard connection")
 	rng := r.Rng
-	behs := []string{"-", "p", "s", "a"} // none, pass, short-circuit, alter options
+	behs := []string{"-", "p", "s", "a", "d"} // none, pass, short-circuit, add an option, drop all options
 
 	bb := newBufconn(&scriptServer{})
 	defer bb.stop()
@@ -94,7 +94,7 @@ func suiteC17(r *Run) {
 		ch := base
 		var wrappers []grpc.ClientConnInterface
 		for i := 0; i < depth; i++ {
-			l := layer{behs[rng.Intn(4)], behs[rng.Intn(4)]}
+			l := layer{behs[rng.Intn(5)], behs[rng.Intn(5)]}
 			if rng.Chance(50) {
 				l = layer{"p", "p"}
 			}
@@ -111,6 +111,8 @@ func suiteC17(r *Run) {
 						return errShort
 					case "a":
 						opts = append(opts, grpc.WaitForReady(false))
+					case "d":
+						opts = nil
 					}
 					return invoker(ctx, method, req, reply, cc, opts...)
 				}
@@ -124,6 +126,8 @@ func suiteC17(r *Run) {
 						return nil, errShort
 					case "a":
 						opts = append(opts, grpc.WaitForReady(false))
+					case "d":
+						opts = nil
 					}
 					return streamer(ctx, desc, cc, method, opts...)
 				}
@@ -153,11 +157,17 @@ func suiteC17(r *Run) {
 			log = log[:0]
 			ctx, cancel := context.WithCancel(context.Background())
 			var err error
+			// the caller's own options: what reaches the next layer is what the interceptor forwards, nothing else
+			ncopts := rng.Intn(3)
+			var copts []grpc.CallOption
+			for k := 0; k < ncopts; k++ {
+				copts = append(copts, grpc.WaitForReady(true))
+			}
 			if kind == "unary" {
-				err = ch.Invoke(ctx, mUnary, &Msg{}, &Msg{})
+				err = ch.Invoke(ctx, mUnary, &Msg{}, &Msg{}, copts...)
 			} else {
 				var cs grpc.ClientStream
-				cs, err = ch.NewStream(ctx, descBidi, mBidi)
+				cs, err = ch.NewStream(ctx, descBidi, mBidi, copts...)
 				if cs != nil {
 					cs.CloseSend()
 				}
@@ -171,7 +181,7 @@ func suiteC17(r *Run) {
 			}
 			// keep interceptor events and recording-base events only
 			ans := strings.Join(log, " ") + " =>" + res
-			r.Op(sprintf("C17 %s base=%s layers=%s", kind, baseKind, strings.Join(lspec, ",")), ans)
+			r.Op(sprintf("C17 %s base=%s layers=%s copts=%d", kind, baseKind, strings.Join(lspec, ","), ncopts), ans)
 			r.Eval(fmt.Sprint(kind, baseKind, lspec), depth >= 2 || strings.Contains(strings.Join(lspec, ","), "-"))
 			r.Count("base:" + baseKind)
 			r.TracesOnImpl++
@@ -207,6 +217,40 @@ func suiteC17(r *Run) {
 					r.Violate(sig, "the connection argument given to interceptors is the underlying standard gRPC connection when there is one at any wrapping depth and nil otherwise",
 						sprintf("%s call, base %s, layers (inner to outer) %v: event %s (expected cc=%s)", kind, baseKind, lspec, e, wantCC), caseDesc, e)
 				}
+			}
+			// options: every layer (and finally the wrapped channel) receives exactly what the layer above forwarded
+			cur, stopped := ncopts, false
+			var wantOpts []string
+			for i := depth - 1; i >= 0 && !stopped; i-- {
+				b := layers[i].u
+				if kind == "stream" {
+					b = layers[i].s
+				}
+				if b == "-" {
+					continue
+				}
+				wantOpts = append(wantOpts, sprintf("opts=%d)", cur))
+				switch b {
+				case "s":
+					stopped = true
+				case "a":
+					cur++
+				case "d":
+					cur = 0
+				}
+			}
+			if !stopped && baseKind == "rec" {
+				wantOpts = append(wantOpts, sprintf("opts=%d)", cur))
+			}
+			var gotOpts []string
+			for _, e := range log {
+				if k := strings.LastIndex(e, "opts="); k >= 0 {
+					gotOpts = append(gotOpts, e[k:])
+				}
+			}
+			if fmt.Sprint(gotOpts) != fmt.Sprint(wantOpts) {
+				r.Violate("client-intercept/options-not-as-forwarded", "the continuation passed to an interceptor reaches the next layer exactly as the interceptor calls it",
+					sprintf("%s call with %d caller options, layers (inner to outer) %v: option counts seen %v, expected %v", kind, ncopts, lspec, gotOpts, wantOpts), caseDesc, ans)
 			}
 			if fmt.Sprint(got) != fmt.Sprint(want) {
 				r.Violate("client-intercept/wrong-order-or-count", "routes each call through the interceptor exactly once, outermost wrapper first; kinds without an interceptor go straight to the wrapped channel",
